@@ -119,7 +119,8 @@ enum Op {
     Rewind,
     SetLimit(usize),
     ClearLimit,
-    Opt(u16),
+    /// OPT with this payload size and raw options (code, length).
+    Opt(u16, Vec<(u16, usize)>),
     /// The sink gets more room (as after the caller grew the buffer).
     Heal(usize),
 }
@@ -284,7 +285,7 @@ enum Comp {
 #[derive(Clone, Default, Debug, PartialEq)]
 struct Model {
     items: Vec<(u8, Item)>, // (section, item)
-    opt: Option<u16>,
+    opt: Option<(u16, Vec<(u16, Vec<u8>)>)>,
 }
 
 fn expected_view(pool: &[String], m: &Model) -> (Vec<(String, Rtype, u16)>, Vec<(u8, String, Rtype, u32, String)>) {
@@ -302,7 +303,8 @@ fn expected_view(pool: &[String], m: &Model) -> (Vec<(String, Rtype, u16)>, Vec<
     (qs, rs)
 }
 
-fn actual_view(bytes: &[u8]) -> Result<(Vec<(String, Rtype, u16)>, Vec<(u8, String, Rtype, u32, String)>, Option<u16>, [u16; 4]), String> {
+#[allow(clippy::type_complexity)]
+fn actual_view(bytes: &[u8]) -> Result<(Vec<(String, Rtype, u16)>, Vec<(u8, String, Rtype, u32, String)>, Option<(u16, Vec<(u16, Vec<u8>)>)>, [u16; 4]), String> {
     let v = dns::view(bytes).ok_or("message does not parse")?;
     let dot = |s: &str| if s.ends_with('.') { s.to_ascii_lowercase() } else { format!("{}.", s.to_ascii_lowercase()) };
     let qs = v.questions.iter().map(|(n, t, c)| (dot(n), *t, c.to_int())).collect();
@@ -336,7 +338,21 @@ fn actual_view(bytes: &[u8]) -> Result<(Vec<(String, Rtype, u16)>, Vec<(u8, Stri
         u16::from_be_bytes([bytes[8], bytes[9]]),
         u16::from_be_bytes([bytes[10], bytes[11]]),
     ];
-    Ok((qs, rs, v.opt.map(|o| o.0), counts))
+    // The OPT record with its options as raw (code, data) pairs.
+    let opt = match v.opt {
+        None => None,
+        Some((size, _, _)) => {
+            let m = domain::base::Message::from_octets(bytes).map_err(|_| "message does not parse")?;
+            let o = m.opt().ok_or("OPT record vanished")?;
+            let mut opts = Vec::new();
+            for item in o.opt().iter::<domain::base::opt::UnknownOptData<_>>() {
+                let u = item.map_err(|_| "OPT option does not parse")?;
+                opts.push((u.code().to_int(), u.data().to_vec()));
+            }
+            Some((size, opts))
+        }
+    };
+    Ok((qs, rs, opt, counts))
 }
 
 /// Execute `ops` on a builder over a sink of capacity `cap`; check after
@@ -458,14 +474,18 @@ fn execute<T: Composer>(pool: &[String], ops: &[Op], ctl: &SinkCtl, stream: bool
             Op::SetLimit(l) => st.mb().set_push_limit(*l),
             Op::ClearLimit => st.mb().clear_push_limit(),
             Op::Heal(extra) => ctl.cap.set(ctl.cap.get() + extra),
-            Op::Opt(size) => {
+            Op::Opt(size, opts) => {
                 if let Stage::Ad(b) = &mut st {
                     if model.opt.is_none() {
+                        let datas: Vec<(u16, Vec<u8>)> = opts.iter().map(|(c, l)| (*c, (0..*l).map(|i| (i as u8).wrapping_mul(7).wrapping_add(*c as u8)).collect())).collect();
                         match b.opt(|o| {
                             o.set_udp_payload_size(*size);
+                            for (c, d) in &datas {
+                                o.push_raw_option(domain::base::iana::OptionCode::from_int(*c), d.len() as u16, |t| t.append_slice(d))?;
+                            }
                             Ok(())
                         }) {
-                            Ok(()) => model.opt = Some(*size),
+                            Ok(()) => model.opt = Some((*size, datas)),
                             Err(_) => failed = true,
                         }
                     }
@@ -474,6 +494,14 @@ fn execute<T: Composer>(pool: &[String], ops: &[Op], ctl: &SinkCtl, stream: bool
         }
         let after = ctl.bytes.borrow().clone();
         lens.push(after.len());
+        // The builder's own view of the message is what the target holds.
+        if after.len() >= prefix + 12 {
+            let live = st.mb().as_slice().to_vec();
+            if live != after[prefix..] {
+                sim::violation(P, "parse-back", format!("builder-view-differs-from-target/{}", label), format!("after op #{} {:?}: as_slice() has {} octets, the target {}", i, op, live.len(), after.len() - prefix));
+                return None;
+            }
+        }
         if failed {
             sim::stat("fault.push_failed");
             // (a) a failed push leaves octets and counts exactly as before.
@@ -576,7 +604,11 @@ fn gen_ops(pool: &[String], size_class: u64) -> Vec<Op> {
             }
             3 => ops.push(Op::SetLimit(12 + sim::draw("ops.limit", 700) as usize)),
             4 => ops.push(Op::ClearLimit),
-            5 if section == 3 => ops.push(Op::Opt(*sim::pick("ops.opt_size", &[1232u16, 512, 4096]))),
+            5 if section == 3 => {
+                let n = sim::draw("ops.opt_n_options", 4) as usize;
+                let opts: Vec<(u16, usize)> = (0..n).map(|i| (65_001 + i as u16, *sim::pick("ops.opt_option_len", &[0usize, 1, 8, 40, 300]))).collect();
+                ops.push(Op::Opt(*sim::pick("ops.opt_size", &[1232u16, 512, 4096]), opts));
+            }
             6 => ops.push(Op::Heal(1 + sim::draw("ops.heal", 300) as usize)),
             _ => {
                 if section == 0 {
